@@ -332,6 +332,10 @@ theorem step_invR {sp : Spec} (hk : sp.KeysNodup) {s s' : Sys} {a : Action} (h :
     refine ⟨?_, h.l1, ?_, h.d1⟩
     · intro r hr; simp [restart] at hr
     · intro r hr; simp [restart] at hr
+  | nursery k =>
+    simp only [step] at hs
+    obtain ⟨n, rfl⟩ := nurseryStep_only hs
+    exact ⟨h.a1, h.l1, h.a3, h.d1⟩
   | fact f => simp only [step] at hs; cases hs; exact ⟨h.a1, h.l1, h.a3, h.d1⟩
   | forceClose =>
     simp only [step] at hs
@@ -740,6 +744,10 @@ theorem step_invU {sp : Spec} (hce : sp.CoopEmpty) {s s' : Sys} {a : Action} (hi
     · cases hs
     · exact resApply_invU h hs
   | crash => simp only [step] at hs; cases hs; exact restart_invU hk h hH.2
+  | nursery k =>
+    simp only [step] at hs
+    obtain ⟨n, rfl⟩ := nurseryStep_only hs
+    exact ⟨h.u1, h.u2, h.u3, h.u4, h.u5⟩
   | fact f =>
     simp only [step] at hs; cases hs
     exact invU_of_msgs h ⟨rfl, rfl⟩ rfl rfl rfl rfl rfl (fun _ hm => hm)
